@@ -3,7 +3,9 @@ C02 — the reader reports what the ELF specification says is in the file.
 Record level: layouts, field decoders, membership rule.
 -/
 import ElfioVerif.Lemmas.Records
-import ElfioVerif.Model.Load
+import ElfioVerif.Lemmas.LoadSpec
+set_option linter.unusedSimpArgs false
+set_option linter.unusedVariables false
 namespace ElfioVerif.C02
 open Gen
 
@@ -178,5 +180,192 @@ theorem member_eq_spec (g : Seg) (b : SecBuf)
   rcases Bool.eq_false_or_eq_true (b.flags.toNat / 1024 % 2 == 1) with hT | hT <;>
   rcases Bool.eq_false_or_eq_true (g.stype.toNat == 7) with hG | hG <;>
   simp [hA, hT, hG]
+
+/-! ## Whole-load theorems
+
+Specification side first (written against Spec/Records.lean only), then the bridge from the
+specification-level well-formedness to the numeric hypotheses of Lemmas/LoadSpec.lean, then
+`load_eq_spec`. -/
+
+/-! ### the specification's view of an image -/
+
+def identByte (img : Bytes) (i : Nat) : Nat := (img.getD i 0).toNat
+def clsOf (img : Bytes) : Cls := if identByte img Spec.EI_CLASS = Spec.ELFCLASS64 then .c64 else .c32
+def encOf (img : Bytes) : Enc := if identByte img Spec.EI_DATA = Spec.ELFDATA2MSB then .msb else .lsb
+/-- ELF-header field by name -/
+def eh (img : Bytes) (f : String) : Nat := Spec.get (Spec.ehdrL (clsOf img)) (encOf img) img 0 f
+def shBase (img : Bytes) (i : Nat) : Nat := eh img "e_shoff" + i * eh img "e_shentsize"
+def phBase (img : Bytes) (j : Nat) : Nat := eh img "e_phoff" + j * eh img "e_phentsize"
+/-- field of section header `i` / program header `j` by name -/
+def sh (img : Bytes) (i : Nat) (f : String) : Nat := Spec.get (Spec.shdrL (clsOf img)) (encOf img) img (shBase img i) f
+def ph (img : Bytes) (j : Nat) (f : String) : Nat := Spec.get (Spec.phdrL (clsOf img)) (encOf img) img (phBase img j) f
+def occupiesFile (ty : Nat) : Bool := ty != Spec.SHT_NULL && ty != Spec.SHT_NOBITS
+def segHasData (img : Bytes) (j : Nat) : Bool := ph img j "p_type" != Spec.PT_NULL && ph img j "p_filesz" != 0
+/-- the file bytes of section `i` / segment `j` -/
+def secFileBytes (img : Bytes) (i : Nat) : Bytes :=
+  if occupiesFile (sh img i "sh_type") then slice img (sh img i "sh_offset") (sh img i "sh_size") else []
+def segFileBytes (img : Bytes) (j : Nat) : Bytes :=
+  if segHasData img j then slice img (ph img j "p_offset") (ph img j "p_filesz") else []
+/-- the section-name string table -/
+def shstrtab (img : Bytes) : Option Bytes :=
+  if eh img "e_shstrndx" = Spec.SHN_UNDEF then none else some (secFileBytes img (eh img "e_shstrndx"))
+def secName (img : Bytes) (i : Nat) : Bytes :=
+  match shstrtab img with
+  | none => []
+  | some T => (Spec.cstrAt T (sh img i "sh_name")).getD []
+/-- the specification's members of segment `j` -/
+def members (img : Bytes) (j : Nat) : List Nat :=
+  (List.range (eh img "e_shnum")).filter (fun i =>
+    Spec.inSegment (sh img i "sh_flags") (sh img i "sh_addr") (sh img i "sh_offset") (sh img i "sh_size")
+      (ph img j "p_type") (ph img j "p_offset") (ph img j "p_vaddr") (ph img j "p_filesz") (ph img j "p_memsz"))
+
+/-- **well-formed ELF image** (decidable; specification vocabulary only) -/
+def WellFormedImage (img : Bytes) : Prop :=
+  img.take 4 = Spec.ELFMAG ∧
+  (identByte img Spec.EI_CLASS = Spec.ELFCLASS32 ∨ identByte img Spec.EI_CLASS = Spec.ELFCLASS64) ∧
+  (identByte img Spec.EI_DATA = Spec.ELFDATA2LSB ∨ identByte img Spec.EI_DATA = Spec.ELFDATA2MSB) ∧
+  Spec.ehdrSize (clsOf img) ≤ img.length ∧ img.length < 9223372036854775808 ∧
+  (eh img "e_shnum" ≠ 0 → Spec.shdrSize (clsOf img) ≤ eh img "e_shentsize") ∧
+  (eh img "e_phnum" ≠ 0 → Spec.phdrSize (clsOf img) ≤ eh img "e_phentsize") ∧
+  (∀ i, i < eh img "e_shnum" →
+    shBase img i + Spec.shdrSize (clsOf img) ≤ img.length ∧
+    (occupiesFile (sh img i "sh_type") = true → sh img i "sh_offset" + sh img i "sh_size" ≤ img.length) ∧
+    sh img i "sh_addr" + sh img i "sh_size" < 18446744073709551616 ∧
+    sh img i "sh_offset" + sh img i "sh_size" < 18446744073709551616) ∧
+  (∀ j, j < eh img "e_phnum" →
+    phBase img j + Spec.phdrSize (clsOf img) ≤ img.length ∧
+    (segHasData img j = true → ph img j "p_offset" + ph img j "p_filesz" ≤ img.length) ∧
+    ph img j "p_vaddr" + ph img j "p_memsz" < 18446744073709551616 ∧
+    ph img j "p_offset" + ph img j "p_filesz" < 18446744073709551616) ∧
+  (eh img "e_shstrndx" = Spec.SHN_UNDEF ∨ eh img "e_shstrndx" < eh img "e_shnum") ∧
+  (eh img "e_shstrndx" ≠ Spec.SHN_UNDEF → ∀ i, i < eh img "e_shnum" →
+    (Spec.cstrAt (secFileBytes img (eh img "e_shstrndx")) (sh img i "sh_name")).isSome = true)
+
+instance (img : Bytes) : Decidable (WellFormedImage img) := by
+  unfold WellFormedImage; infer_instance
+
+/-! ### bridge: specification fields of the image = model fields of the decoded records -/
+
+theorem slice_slice (b : Bytes) (a n o w : Nat) (h : o + w ≤ n) :
+    slice (slice b a n) o w = slice b (a + o) w := by
+  unfold slice
+  apply List.ext_getElem?
+  intro i
+  simp only [List.getElem?_take, List.getElem?_drop]
+  repeat' split
+  all_goals first | rfl | omega | (exfalso; omega) | (congr 1; omega) | (simp_all; try omega)
+
+theorem get_slice (L : Spec.Layout) (enc : Enc) (img : Bytes) (base n : Nat) (name : String)
+    (h : (Spec.field L name).1 + (Spec.field L name).2 ≤ n) :
+    Spec.get L enc (slice img base n) 0 name = Spec.get L enc img base name := by
+  unfold Spec.get
+  simp only [Nat.zero_add]
+  rw [slice_slice _ _ _ _ _ h]
+
+theorem ehdr_bridge (img : Bytes) (c : Cls) (enc : Enc) (hl : ehdrSize c ≤ img.length) :
+    (Hdr.e_type c enc (slice img 0 (ehdrSize c))).toNat = Spec.get (Spec.ehdrL c) enc img 0 "e_type" ∧
+    (Hdr.e_machine c enc (slice img 0 (ehdrSize c))).toNat = Spec.get (Spec.ehdrL c) enc img 0 "e_machine" ∧
+    (Hdr.e_version c enc (slice img 0 (ehdrSize c))).toNat = Spec.get (Spec.ehdrL c) enc img 0 "e_version" ∧
+    (Hdr.e_entry c enc (slice img 0 (ehdrSize c))).toNat = Spec.get (Spec.ehdrL c) enc img 0 "e_entry" ∧
+    (Hdr.e_phoff c enc (slice img 0 (ehdrSize c))).toNat = Spec.get (Spec.ehdrL c) enc img 0 "e_phoff" ∧
+    (Hdr.e_shoff c enc (slice img 0 (ehdrSize c))).toNat = Spec.get (Spec.ehdrL c) enc img 0 "e_shoff" ∧
+    (Hdr.e_flags c enc (slice img 0 (ehdrSize c))).toNat = Spec.get (Spec.ehdrL c) enc img 0 "e_flags" ∧
+    (Hdr.e_ehsize c enc (slice img 0 (ehdrSize c))).toNat = Spec.get (Spec.ehdrL c) enc img 0 "e_ehsize" ∧
+    (Hdr.e_phentsize c enc (slice img 0 (ehdrSize c))).toNat = Spec.get (Spec.ehdrL c) enc img 0 "e_phentsize" ∧
+    (Hdr.e_phnum c enc (slice img 0 (ehdrSize c))).toNat = Spec.get (Spec.ehdrL c) enc img 0 "e_phnum" ∧
+    (Hdr.e_shentsize c enc (slice img 0 (ehdrSize c))).toNat = Spec.get (Spec.ehdrL c) enc img 0 "e_shentsize" ∧
+    (Hdr.e_shnum c enc (slice img 0 (ehdrSize c))).toNat = Spec.get (Spec.ehdrL c) enc img 0 "e_shnum" ∧
+    (Hdr.e_shstrndx c enc (slice img 0 (ehdrSize c))).toNat = Spec.get (Spec.ehdrL c) enc img 0 "e_shstrndx" := by
+  have hlen : ehdrSize c ≤ (slice img 0 (ehdrSize c)).length := by
+    rw [slice_length_of_le (by omega)]; exact Nat.le_refl _
+  have h := ehdr_fields_eq_spec c enc (slice img 0 (ehdrSize c)) hlen
+  have g := fun name hh => get_slice (Spec.ehdrL c) enc img 0 (ehdrSize c) name hh
+  rw [g "e_type" (by cases c <;> decide), g "e_machine" (by cases c <;> decide),
+    g "e_version" (by cases c <;> decide), g "e_entry" (by cases c <;> decide),
+    g "e_phoff" (by cases c <;> decide), g "e_shoff" (by cases c <;> decide),
+    g "e_flags" (by cases c <;> decide), g "e_ehsize" (by cases c <;> decide),
+    g "e_phentsize" (by cases c <;> decide), g "e_phnum" (by cases c <;> decide),
+    g "e_shentsize" (by cases c <;> decide), g "e_shnum" (by cases c <;> decide),
+    g "e_shstrndx" (by cases c <;> decide)] at h
+  exact h
+
+theorem secHdr_bridge (img : Bytes) (c : Cls) (enc : Enc) (k : Nat) (isLazy : Bool) (idx : Nat)
+    (hk : k + shdrSize c ≤ img.length) :
+    (secHdr c enc img k isLazy idx).nameOff.toNat = Spec.get (Spec.shdrL c) enc img k "sh_name" ∧
+    (secHdr c enc img k isLazy idx).stype.toNat = Spec.get (Spec.shdrL c) enc img k "sh_type" ∧
+    (secHdr c enc img k isLazy idx).flags.toNat = Spec.get (Spec.shdrL c) enc img k "sh_flags" ∧
+    (secHdr c enc img k isLazy idx).addr.toNat = Spec.get (Spec.shdrL c) enc img k "sh_addr" ∧
+    (secHdr c enc img k isLazy idx).offset.toNat = Spec.get (Spec.shdrL c) enc img k "sh_offset" ∧
+    (secHdr c enc img k isLazy idx).size.toNat = Spec.get (Spec.shdrL c) enc img k "sh_size" ∧
+    (secHdr c enc img k isLazy idx).link.toNat = Spec.get (Spec.shdrL c) enc img k "sh_link" ∧
+    (secHdr c enc img k isLazy idx).info.toNat = Spec.get (Spec.shdrL c) enc img k "sh_info" ∧
+    (secHdr c enc img k isLazy idx).addrAlign.toNat = Spec.get (Spec.shdrL c) enc img k "sh_addralign" ∧
+    (secHdr c enc img k isLazy idx).entSize.toNat = Spec.get (Spec.shdrL c) enc img k "sh_entsize" := by
+  have hlen : shdrSize c ≤ (slice img k (shdrSize c)).length := by
+    rw [slice_length_of_le hk]; exact Nat.le_refl _
+  have h := shdr_fields_eq_spec c enc (slice img k (shdrSize c))
+    (secInit c (BitVec.ofNat 64 img.length) true isLazy idx) hlen
+  have g := fun name hh => get_slice (Spec.shdrL c) enc img k (shdrSize c) name hh
+  simp only [] at h
+  rw [g "sh_name" (by cases c <;> decide), g "sh_type" (by cases c <;> decide),
+    g "sh_flags" (by cases c <;> decide), g "sh_addr" (by cases c <;> decide),
+    g "sh_offset" (by cases c <;> decide), g "sh_size" (by cases c <;> decide),
+    g "sh_link" (by cases c <;> decide), g "sh_info" (by cases c <;> decide),
+    g "sh_addralign" (by cases c <;> decide), g "sh_entsize" (by cases c <;> decide)] at h
+  exact h
+
+theorem segHdr_bridge (img : Bytes) (c : Cls) (enc : Enc) (k : Nat) (isLazy : Bool)
+    (hk : k + phdrSize c ≤ img.length) :
+    (segHdr c enc img k isLazy).stype.toNat = Spec.get (Spec.phdrL c) enc img k "p_type" ∧
+    (segHdr c enc img k isLazy).flags.toNat = Spec.get (Spec.phdrL c) enc img k "p_flags" ∧
+    (segHdr c enc img k isLazy).offset.toNat = Spec.get (Spec.phdrL c) enc img k "p_offset" ∧
+    (segHdr c enc img k isLazy).vaddr.toNat = Spec.get (Spec.phdrL c) enc img k "p_vaddr" ∧
+    (segHdr c enc img k isLazy).paddr.toNat = Spec.get (Spec.phdrL c) enc img k "p_paddr" ∧
+    (segHdr c enc img k isLazy).filesz.toNat = Spec.get (Spec.phdrL c) enc img k "p_filesz" ∧
+    (segHdr c enc img k isLazy).memsz.toNat = Spec.get (Spec.phdrL c) enc img k "p_memsz" ∧
+    (segHdr c enc img k isLazy).align.toNat = Spec.get (Spec.phdrL c) enc img k "p_align" := by
+  have hlen : phdrSize c ≤ (slice img k (phdrSize c)).length := by
+    rw [slice_length_of_le hk]; exact Nat.le_refl _
+  have h := phdr_fields_eq_spec c enc (slice img k (phdrSize c))
+    (segInit (BitVec.ofNat 64 img.length) isLazy) hlen
+  have g := fun name hh => get_slice (Spec.phdrL c) enc img k (phdrSize c) name hh
+  simp only [] at h
+  rw [g "p_type" (by cases c <;> decide), g "p_flags" (by cases c <;> decide),
+    g "p_offset" (by cases c <;> decide), g "p_vaddr" (by cases c <;> decide),
+    g "p_paddr" (by cases c <;> decide), g "p_filesz" (by cases c <;> decide),
+    g "p_memsz" (by cases c <;> decide), g "p_align" (by cases c <;> decide)] at h
+  exact h
+
+theorem beq32 (t : BitVec 32) (k : Nat) (hk : k < 4294967296) : (t == BitVec.ofNat 32 k) = (t.toNat == k) := by
+  rw [Bool.eq_iff_iff]
+  simp only [beq_iff_eq]
+  constructor
+  · intro h; rw [h]; simp only [BitVec.toNat_ofNat, Nat.reducePow]; omega
+  · intro h; apply BitVec.eq_of_toNat_eq; simp only [BitVec.toNat_ofNat, Nat.reducePow]; omega
+
+theorem isNullOrNobits_eq (t : BitVec 32) : isNullOrNobitsTy t = !occupiesFile t.toNat := by
+  unfold isNullOrNobitsTy occupiesFile
+  rw [beq32 t SHT_NULL (by decide), beq32 t SHT_NOBITS (by decide)]
+  have e1 : SHT_NULL = Spec.SHT_NULL := rfl
+  have e2 : SHT_NOBITS = Spec.SHT_NOBITS := rfl
+  rw [e1, e2]
+  simp only [bne]
+  generalize (t.toNat == Spec.SHT_NULL) = a
+  generalize (t.toNat == Spec.SHT_NOBITS) = b
+  cases a <;> cases b <;> rfl
+
+theorem segSkip_eq (g : Seg) : segSkip g = (g.stype.toNat == Spec.PT_NULL || g.filesz.toNat == 0) := by
+  unfold segSkip seg64_load_data_skip
+  have e1 : BitVec.signExtend 64 0#32 = 0#64 := by decide
+  rw [e1, Bool.eq_iff_iff]
+  simp only [Bool.or_eq_true, beq_iff_eq]
+  have e2 : PT_NULL = Spec.PT_NULL := rfl
+  constructor
+  · rintro (h | h)
+    · left; rw [← h]; simp only [BitVec.toNat_ofNat, Nat.reducePow, ← e2]; decide
+    · right; rw [← h]; rfl
+  · rintro (h | h)
+    · left; apply BitVec.eq_of_toNat_eq; rw [h]; decide
+    · right; apply BitVec.eq_of_toNat_eq; rw [h]; rfl
 
 end ElfioVerif.C02
